@@ -197,7 +197,7 @@ logistic_impl!(multi_logistic_f32, f32, MultiLogisticRegression, [0, 0, 1, 0, 2,
 pub fn tweedie_spec() -> BuilderSpec {
     BuilderSpec {
         name: "tweedie",
-        floats: &["f64", "f32"],
+        floats: &["f64"],
         params: vec![
             // setter rustdoc (glm/hyperparams.rs:81): "`alpha` set to 0 is equivalent to unpenalized GLM" -> 0 is
             // explicitly allowed; error text (error.rs:20) "penalty should be positive"
